@@ -440,6 +440,11 @@ func (p *parser) parseStep(n node) (opnd node) {
 
 // Expr ::= '(' Step ("," Step)* ')'
 func (p *parser) parseSequence(n node) (opnd node) {
+	// a sequence may contain sequences: count the nesting like parseExpression does.
+	if p.d = p.d + 1; p.d > 200 {
+		panic("the xpath query is too complex(depth > 200)")
+	}
+	defer func() { p.d-- }()
 	p.skipItem(itemLParens)
 	opnd = p.parseStep(n)
 	for {
